@@ -63,6 +63,20 @@ var baselineFuncs = func() map[string]bool {
 // expands inside the output of an earlier one).
 var inlineSeq int
 
+//go:embed baseline_fields.txt
+var baselineFieldsTxt string
+
+var baselineFields = func() map[string]bool {
+	m := map[string]bool{}
+	for _, l := range strings.Split(baselineFieldsTxt, "\n") {
+		l = strings.TrimSpace(l)
+		if l != "" && !strings.HasPrefix(l, "#") {
+			m[l] = true
+		}
+	}
+	return m
+}()
+
 type inliner struct {
 	fset    *token.FileSet
 	pkgs    []*packages.Package
@@ -87,6 +101,7 @@ type inliner struct {
 }
 
 type litVar struct {
+	alias    *types.Var // kind "alias": the local this one stands for
 	v        *types.Var
 	file     *ast.File
 	kind     string   // "lit": function literal; "mexpr": method expression (*T).M; "func": declared function; "nil": no callback
@@ -102,6 +117,7 @@ type litVar struct {
 
 // calleeShape is what expand needs to know about the function being inlined: a declared helper or a bound literal.
 type calleeShape struct {
+	model bool // body comes from libraryModels, not from the module
 	name string
 	fn   *types.Func // nil for a literal
 	lv   *litVar
@@ -158,14 +174,8 @@ func flattenHelpers(pkgs []*packages.Package) (map[string][]byte, []string) {
 			}
 		}
 	}
-	if len(in.helpers) == 0 && len(in.litVars) == 0 && len(in.changed) == 0 {
-		var notes []string
-		for n, w := range in.skipped {
-			notes = append(notes, fmt.Sprintf("new function %s not inlined: %s", n, w))
-		}
-		sort.Strings(notes)
-		return nil, notes
-	}
+	// (no early exit when there is no new helper: library models and switch/loop normalisations apply regardless; on
+	// the reference tree nothing below changes anything)
 	for _, p := range pkgs {
 		if !strings.HasPrefix(p.PkgPath, modulePath) {
 			continue
@@ -324,6 +334,44 @@ func (in *inliner) calleeOf(p *packages.Package, call *ast.CallExpr) *types.Func
 	return fn
 }
 
+var libModels map[string]*ast.FuncDecl
+
+// libraryModels: source models of slices.ContainsFunc / IndexFunc (type parameter names as in the library).
+func libraryModels() map[string]*ast.FuncDecl {
+	if libModels != nil {
+		return libModels
+	}
+	libModels = map[string]*ast.FuncDecl{}
+	src := `package m
+func ContainsFunc[S ~[]E, E any](s S, f func(E) bool) bool {
+	for _inl_i := range s {
+		if f(s[_inl_i]) {
+			return true
+		}
+	}
+	return false
+}
+func IndexFunc[S ~[]E, E any](s S, f func(E) bool) int {
+	for _inl_i := range s {
+		if f(s[_inl_i]) {
+			return _inl_i
+		}
+	}
+	return -1
+}
+`
+	f, err := parser.ParseFile(token.NewFileSet(), "models.go", src, 0)
+	if err != nil {
+		return libModels
+	}
+	for _, d := range f.Decls {
+		if fd, ok := d.(*ast.FuncDecl); ok {
+			libModels[fd.Name.Name] = stripPos(fd).(*ast.FuncDecl)
+		}
+	}
+	return libModels
+}
+
 // simpleDefers: every defer of the body is a top-level statement, no return can happen before the last of them, and
 // the deferred calls have nothing to evaluate but names (so running them after the expansion is the same thing).
 func simpleDefers(body *ast.BlockStmt) bool {
@@ -394,6 +442,21 @@ func simpleDefers(body *ast.BlockStmt) bool {
 func (in *inliner) shapeOf(p *packages.Package, call *ast.CallExpr) *calleeShape {
 	if fn := in.calleeOf(p, call); fn != nil {
 		if !in.helpers[fn] {
+			// a few library functions taking a callback are expanded from a model of their documented behaviour when the
+			// callback is a literal (so that `slices.ContainsFunc(xs, func...)` reads like the loop it replaces)
+			if fn.Pkg() != nil && fn.Pkg().Path() == "slices" && len(call.Args) == 2 {
+				_, isLit := call.Args[1].(*ast.FuncLit)
+				if id, isId := call.Args[1].(*ast.Ident); isId && !isLit {
+					if av, ok := p.TypesInfo.Uses[id].(*types.Var); ok && in.litVars[av] != nil && in.litVars[av].kind == "lit" {
+						isLit = true
+					}
+				}
+				if isLit {
+					if fd := libraryModels()[fn.Name()]; fd != nil {
+						return &calleeShape{name: "library model slices." + fn.Name(), fn: fn, model: true, typ: fd.Type, body: fd.Body, sig: fn.Type().(*types.Signature)}
+					}
+				}
+			}
 			return nil
 		}
 		fd := in.decls[fn]
@@ -540,6 +603,10 @@ func (in *inliner) collectLitVars() {
 								in.litVars[v] = &litVar{v: v, file: f, kind: "func", expr: x, p: p, assign: as, idx: i}
 							}
 						case *ast.Ident:
+							// another local that is itself a bound literal (`f := (func(T) bool)(isWildcard)`)
+							if tv, isVar := p.TypesInfo.Uses[x].(*types.Var); isVar && !tv.IsField() && tv.Parent() != p.Types.Scope() {
+								in.litVars[v] = &litVar{v: v, file: f, kind: "alias", expr: x, alias: tv, p: p, assign: as, idx: i}
+							}
 							if _, isNil := p.TypesInfo.Uses[x].(*types.Nil); isNil {
 								in.litVars[v] = &litVar{v: v, file: f, kind: "nil", p: p, assign: as, idx: i}
 							}
@@ -608,6 +675,14 @@ func (in *inliner) collectLitVars() {
 			})
 		}
 	}
+	// an alias is only useful when what it stands for is itself a bound literal
+	for v, lv := range in.litVars {
+		if lv.kind == "alias" {
+			if t := in.litVars[lv.alias]; t == nil || t.kind != "lit" {
+				delete(in.litVars, v)
+			}
+		}
+	}
 }
 
 // rewriteFuncValueCalls: `op := (func(*T) error)((*T).M); ... op(x)` becomes `x.M()`, and a bound declared function is
@@ -650,7 +725,14 @@ func (in *inliner) rewriteFuncValueCalls() {
 				if !okScope {
 					return true
 				}
+				if lv.kind == "alias" {
+					if _, found := scope.LookupParent(lv.alias.Name(), call.Pos()); found != types.Object(lv.alias) {
+						return true
+					}
+				}
 				switch lv.kind {
+				case "alias":
+					call.Fun = ast.NewIdent(lv.alias.Name())
 				case "mexpr":
 					if len(call.Args) == 0 || call.Ellipsis.IsValid() {
 						return true
@@ -1629,7 +1711,7 @@ func (in *inliner) inlineInStmtCore(p *packages.Package, f *ast.File, s ast.Stmt
 func (in *inliner) expand(p *packages.Package, f *ast.File, call *ast.CallExpr, sh *calleeShape, tail bool) ([]ast.Stmt, []ast.Expr, bool) {
 	fd := &ast.FuncDecl{Type: sh.typ, Body: sh.body, Recv: sh.recv}
 	cp := p
-	if sh.fn != nil {
+	if sh.fn != nil && !sh.model {
 		cp = in.declPkg[sh.fn]
 	}
 	fname := sh.name
@@ -2314,6 +2396,29 @@ func writeBaseline(pkgs []*packages.Package, path string) error {
 				}
 			}
 		}
+	}
+	// struct fields of the module's types, next to it
+	var fields []string
+	for _, p := range pkgs {
+		if !strings.HasPrefix(p.PkgPath, modulePath) {
+			continue
+		}
+		sc := p.Types.Scope()
+		for _, n := range sc.Names() {
+			tn, ok := sc.Lookup(n).(*types.TypeName)
+			if !ok {
+				continue
+			}
+			if st, ok := tn.Type().Underlying().(*types.Struct); ok {
+				for i := 0; i < st.NumFields(); i++ {
+					fields = append(fields, p.PkgPath+"."+n+"."+st.Field(i).Name())
+				}
+			}
+		}
+	}
+	sort.Strings(fields)
+	if err := os.WriteFile(strings.TrimSuffix(path, "baseline_funcs.txt")+"baseline_fields.txt", []byte("# struct fields of the reference tree (written together with baseline_funcs.txt)\n"+strings.Join(fields, "\n")+"\n"), 0o644); err != nil {
+		return err
 	}
 	sort.Strings(names)
 	return os.WriteFile(path, []byte("# functions of the reference tree (regenerate with: kpverify -write-baseline); functions NOT listed here are inlined before analysis\n"+strings.Join(names, "\n")+"\n"), 0o644)
